@@ -165,7 +165,8 @@ def assumptions(prop):
     return PROPS[prop].get("assumptions", []) + ["inputs are exchanged with the model as IEEE-754 bit patterns"]
 
 
-def leanchecker():
-    p = subprocess.run(["lake", "env", "leanchecker", "OASProofs"], cwd=os.path.join(VERIF, "lean"),
+def leanchecker(prop=None):
+    mods = PROPS[prop]["modules"] if prop else ["OASProofs"]
+    p = subprocess.run(["lake", "env", "leanchecker"] + list(mods), cwd=os.path.join(VERIF, "lean"),
                        stdout=subprocess.PIPE, stderr=subprocess.STDOUT)
     return p.returncode == 0, p.stdout.decode(errors="replace")
